@@ -58,7 +58,36 @@ Section HighP.
     intros Hw Hi Hci Ht Hr. unfold h_indexed_select, with_master. rewrite Hmaster, Hi, Hw, Hci. cbn [failing].
     rewrite Ht. cbn [failing]. rewrite Hr. cbn [failing]. apply index_scan_rows.
   Qed.
+
+  (* IndexedSelect on a WITHOUT ROWID table: per index entry, in index order, the row of the
+     primary key tree found with the key taken from the entry's primary key columns *)
+  Theorem indexed_select_norowid_table iname ind ci troot iroot pk s : s_worowid sc = true ->
+    find_index sc iname = Some ind -> to_ci_nonrowid sc columns = Ok ci ->
+    find_root ms name_table table = Ok troot -> find_root ms name_index (si_name ind) = Ok iroot ->
+    as_dbkey (null_key (length (s_pk sc))) (s_pk sc) = Ok pk ->
+    h_indexed_select pg op npages S cb sc table iname columns s
+    = run_flat (via_pk pg op npages S cb ci troot (pk_columns (s_pk sc) (si_cols ind)) pk) (index_rows pg op npages iroot) s.
+  Proof.
+    intros Hw Hi Hci Ht Hr Hk. unfold h_indexed_select, with_master. rewrite Hmaster, Hi, Hw, Hci. cbn [failing].
+    rewrite Ht. cbn [failing]. rewrite Hr. cbn [failing]. rewrite Hk. cbn [failing]. apply index_scan_rows.
+  Qed.
 End HighP.
+
+(* setKey replaces the values of the lookup key and nothing else: the per-entry key keeps the
+   collation and direction asDbKey put on it from the primary key's columns, and its values are
+   the entry's columns at the primary key's positions *)
+Theorem set_key_flags r : forall idx k k', length idx = length k -> set_key r idx k = Ok k' ->
+  map kcoll k' = map kcoll k /\ map kdesc k' = map kdesc k /\
+  map kv k' = map (fun v => nth (Z.to_nat v) r VNull) idx /\ Forall (fun v => v < Z.of_nat (length r)) idx.
+Proof.
+  induction idx as [|v idx IH]; intros k k' Hl H.
+  - destruct k; [|discriminate]. cbn [set_key] in H. inversion H; subst. repeat split; constructor.
+  - destruct k as [|kc k]; [discriminate|]. cbn [set_key] in H.
+    destruct (Z.of_nat (length r) <=? v) eqn:Hv; [discriminate|].
+    destruct (set_key r idx k) as [rest|e] eqn:Er; cbn [bind] in H; [|discriminate]. inversion H; subst.
+    cbn [length] in Hl. destruct (IH k rest (eq_add_S _ _ Hl) Er) as (A & B & C & D).
+    cbn [map kcoll kdesc kv]. rewrite A, B, C. repeat split. constructor; [|exact D]. apply Z.leb_gt. exact Hv.
+Qed.
 
 (* with the collecting callback: exactly the mapped rows, in order, each once *)
 Theorem select_collects pg op npages sc ms table columns ci root l :
